@@ -1,4 +1,5 @@
 SPECIFICATION TSpec
+CONSTANT Strict = TRUE
 INVARIANT DepsExact
 INVARIANT PendingExact
 INVARIANT CellExact
